@@ -5,6 +5,7 @@
    - the decision [rule] the property spells out, and its three implementations (Go HandleRequires, native, cutting).
    Model only - proofs in proofs/RequirenessProofs.v. *)
 From Coq Require Import ZArith List Bool.
+From DG Require Import ProtoWireRef ThriftWire ThriftCut.
 Import ListNotations.
 Local Open Scope Z_scope.
 
@@ -123,3 +124,61 @@ Definition run_struct (decide : fld -> action) (p : popts) (fs : list fld) (pres
   let b0 := bm_copy_to (words (desc_bitmap p fs)) pool in
   let b1 := fold_left (fun b id => bm_set b id false) present b0 in
   handle_ids decide fs (bm_scan b1).
+
+(* ---------------- the VALUE that is written for an unmet field ---------------- *)
+(* a default literal as the IDL states it (thrift/idl.go makeDefaultValue accepts integer, double and string constants, the
+   identifiers true / false on bool fields, and constant / enum-member identifiers, which resolve to an integer here) *)
+Inductive dlit := DInt (z : Z) | DDouble (bits : Z) | DStr (s : list Z) | DBool (b : bool).
+
+Definition is_int_code (tc : Z) : bool := (tc =? T_BYTE) || (tc =? T_I16) || (tc =? T_I32) || (tc =? T_I64).
+
+(* SPEC: the declared default as a value of the field's OWN Thrift type (None: the literal does not fit the type -
+   makeDefaultValue reports an error that idl.go ignores, the field then has no parsed default) *)
+Definition lit_value (tc : Z) (l : dlit) : option tval :=
+  match l with
+  | DInt z => if tc =? T_BYTE then Some (VByte z) else if tc =? T_I16 then Some (VI16 z) else if tc =? T_I32 then Some (VI32 z)
+              else if tc =? T_I64 then Some (VI64 z) else None
+  | DDouble b => if tc =? T_DOUBLE then Some (VDouble b) else None
+  | DStr s => if tc =? T_STRING then Some (VString s) else None
+  | DBool b => if tc =? T_BOOL then Some (VBool (if b then 1 else 0)) else None
+  end.
+
+(* MIRROR of makeDefaultValue: the bytes stored as DefaultValue.thriftBinary - BinaryProtocol.WriteInt(typ, v) for integers
+   (byte / int16 / int32 / int64 conversion of the Go int, big endian), EncodeDouble, EncodeString, 0x01 / 0x00 *)
+Definition int_width (tc : Z) : nat := if tc =? T_BYTE then 1 else if tc =? T_I16 then 2 else if tc =? T_I32 then 4 else 8.
+Definition make_default_bytes (tc : Z) (l : dlit) : option (list Z) :=
+  match l with
+  | DInt z => if is_int_code tc then Some (rev (le_enc (int_width tc) (z mod 256 ^ Z.of_nat (int_width tc)))) else None
+  | DDouble b => if tc =? T_DOUBLE then Some (rev (le_enc 8 (b mod 2 ^ 64))) else None
+  | DStr s => if tc =? T_STRING then Some (rev (le_enc 4 (Z.of_nat (length s) mod 2 ^ 32)) ++ s) else None
+  | DBool b => if tc =? T_BOOL then Some [if b then 1 else 0] else None
+  end.
+
+(* a field with its type and its declared default *)
+Record vfld := { v_f : fld; v_ty : ty; v_lit : option dlit }.
+Definition vfld_ok (f : vfld) : bool :=
+  Bool.eqb (f_hasdef (v_f f)) (match v_lit f with Some l => match lit_value (type_code (v_ty f)) l with Some _ => true | None => false end | None => false end).
+
+(* SPEC: what an unmet field is filled with - the parsed IDL default, else the zero value of its type (empty struct for structs) *)
+Definition default_or_zero (p : popts) (f : vfld) : option tval :=
+  if parsed_default p (v_f f) then match v_lit f with Some l => lit_value (type_code (v_ty f)) l | None => None end
+  else zero_of (v_ty f).
+
+(* MIRROR of BinaryProtocol.WriteDefaultOrEmpty / native tb_write_default_or_empty: the stored thriftBinary when DefaultValue() != nil,
+   else WriteEmpty (whose bytes are the encoding of zero_of: (G) C16_WriteEmpty_source_writes_zero) *)
+Definition write_default_or_empty (p : popts) (f : vfld) : option (list Z) :=
+  if parsed_default p (v_f f) then match v_lit f with Some l => make_default_bytes (type_code (v_ty f)) l | None => None end
+  else match zero_of (v_ty f) with Some z => Some (encode z) | None => None end.
+
+(* MIRROR of the handlers (writeStringValue with val = "" in j2t, handleUnsets in t2j's HTTP branch / cutting uses WriteEmpty):
+   WriteFieldBegin(type, id) then WriteDefaultOrEmpty - for a field the decision [a] says to write *)
+Definition unmet_field_bytes (p : popts) (a : action) (f : vfld) : option (list Z) :=
+  match a with
+  | AWriteDefault | AWriteZero =>
+    match write_default_or_empty p f with
+    | Some bs => Some (type_code (v_ty f) :: rev (le_enc 2 (f_id (v_f f) mod 2 ^ 16)) ++ bs)
+    | None => None
+    end
+  | ASkip => Some []
+  | AMissing => None
+  end.
